@@ -284,3 +284,62 @@ PARTS.append(
     Part('tables', check_tables, strategy=lambda tier: table_cases(tier),
          budget={'quick': 15, 'thorough': 150},
          describe='far-away group left out, main body complete (CLI)'))
+
+
+# ------------------------------------------------- internal reference, long fits
+
+import copy  # noqa: E402
+
+from vfw import tree  # noqa: E402
+from vfw.props import C05 as _c05  # noqa: E402
+
+
+def check_reference_big(case):
+    """The clause 'independent of the internal reference' on fits of the
+    size of a long record on a fine grid (C05's big tables: 16,000-65,000
+    equations; the sample data reach 3526): the same crossing table under
+    two numberings of its intervals -- another interval becomes the internal
+    zero, the equations are assembled in another order -- must give the same
+    relative offsets and the same master curve."""
+    table = _c05.expand_big(case['big'])
+    fo = tree.mod('fit_offsets').find_offsets
+    ids = sorted({s for row in table.values() for s in row})
+    relabel = {s: case['relabel'][s] + 100 for s in ids}
+    mapping = {k: [(s, c) for s, c in sorted(row.items())]
+               for k, row in table.items()}
+    mapping2 = {k: [(relabel[s], c) for s, c in sorted(
+        row.items(), key=lambda sc: relabel[sc[0]])]
+        for k, row in table.items()}
+    ids1, offsets1 = guarded(fo, copy.deepcopy(mapping))
+    ids2, offsets2 = guarded(fo, copy.deepcopy(mapping2))
+    back = {v: k for k, v in relabel.items()}
+    off1 = {int(s): float(o) for s, o in zip(ids1, offsets1)}
+    off2 = {back[int(s)]: float(o) for s, o in zip(ids2, offsets2)}
+    if set(off1) != set(off2):
+        raise Violation('fitted-set-depends-on-numbering', '')
+    scale = max([abs(c) for row in table.values() for c in row.values()]
+                + [1.0])
+    diffs = [off2[s] - off1[s] for s in sorted(off1)]
+    if max(diffs) - min(diffs) > 1e-7 * scale:
+        raise Violation('offsets-depend-on-reference-series',
+                        'spread of differences {!r}'.format(
+                            max(diffs) - min(diffs)))
+    multi = {k: [(s, c) for s, c in row.items()]
+             for k, row in table.items() if len(row) >= 2}
+    c1 = relative_curve(multi, off1)
+    c2 = relative_curve(multi, off2)
+    worst = max(abs(c1[k] - c2[k]) for k in c1)
+    if worst > 1e-7 * scale:
+        raise Violation('master-curve-depends-on-reference-series',
+                        repr(worst))
+    equations = sum(len(row) for row in multi.values())
+    return {'nontrivial', 'equations>16384' if equations > 16384
+            else 'equations<=16384'}
+
+
+PARTS.append(
+    Part('reference_big', check_reference_big,
+         strategy=lambda tier: _c05.big_mapping_cases(),
+         budget={'quick': 3, 'thorough': 12},
+         describe='find_offsets under renumbering of the intervals, '
+                  '16,000-65,000 equations in one fit'))
